@@ -196,8 +196,23 @@ def script_strategy(version, all_metrics, order, complete=None):
         for m in order:
             n_bad = draw(st.sampled_from((0, 0, 0, 1, 1, 2, 3)))
             for _ in range(n_bad):
-                k = draw(st.integers(0, 6))
-                if k == 5:
+                k = draw(st.integers(0, 7))
+                if k == 7:
+                    # a legal value with white space INSIDE, or with one letter replaced by a compatibility look-alike (full-width,
+                    # mathematical, circled, superscript ... forms that NFKC folds to the letter): not the value
+                    from . import gen
+                    val = draw(st.sampled_from(V.table[m]))
+                    j = draw(st.integers(0, len(val)))
+                    if draw(st.booleans()) and len(val) > 1:
+                        j = min(max(1, j), len(val) - 1)
+                        a = val[:j] + draw(st.sampled_from((" ", "  ", "\t", "\u00a0", "\u2003", "\x1f", "\u200b", "-", "_", "."))) + val[j:]
+                        if draw(st.booleans()):
+                            a = a.lower()
+                    else:
+                        j = min(j, len(val) - 1)
+                        alts = gen.confusables().get(val[j]) or gen.confusables().get(val[j].upper()) or ["\uff2e"]
+                        a = val[:j] + draw(st.sampled_from(list(alts))) + val[j + 1:]
+                elif k == 5:
                     # the answer written the way a FIELD is written, with this or another metric's name, and a few relatives:
                     # what a "paste the whole field" convenience would have to get exactly right
                     val = draw(st.sampled_from(V.table[m]))
